@@ -205,13 +205,47 @@ def parse_case(case):
             s, b = e.split(":", 1)
             prog[s] = b
     nums = lambda t: [] if t == "none" else [int(x) for x in t.split(",")]
+    us, eh = nums(kv["us"]), nums(kv["eh"])
+    ehm = nums(kv["ehm"]) if "ehm" in kv else [511] * len(eh)
+    usm = nums(kv["usm"]) if "usm" in kv else [511] * len(us)
     return dict(route=kv["route"], ctor=kv["ctor"], nb=int(kv["nb"]), na=int(kv["na"]),
-                us=nums(kv["us"]), eh=nums(kv["eh"]), digest=kv.get("digest", "0") == "1", prog=prog)
+                us=us, eh=eh, digest=kv.get("digest", "0") == "1", prog=prog,
+                meth=kv.get("meth", "GET"), ehm=ehm, usm=usm)
+
+
+METHOD_BITS = {"HEAD": 1, "GET": 2, "POST": 4, "PUT": 8, "DELETE": 16, "TRACE": 32, "OPTIONS": 64,
+               "CONNECT": 128, "PATCH": 256}
+
+
+def method_bit(meth):
+    return METHOD_BITS.get(meth, 2)
+
+
+def to_model(case):
+    """model line: handlers registered for other methods are invisible to this request"""
+    c = parse_case(case)
+    bit = method_bit(c["meth"])
+    keep_eh = [i for i in range(len(c["eh"])) if c["ehm"][i] & bit]
+    keep_us = [c["us"][i] for i in range(len(c["us"])) if c["usm"][i] & bit]
+    prog = {}
+    for k, v in c["prog"].items():
+        if k[0] == "x":
+            i = int(k[1:])
+            if i in keep_eh:
+                prog["x%d" % keep_eh.index(i)] = v
+        elif k[0] == "s":
+            if int(k[1:]) in keep_us:
+                prog[k] = v
+        else:
+            prog[k] = v
+    return [mk_case(case.split()[0], c["route"], c["ctor"], c["nb"], c["na"], keep_us,
+                    [c["eh"][i] for i in keep_eh], c["digest"], prog)]
 
 
 def get_app(c):
     from poorwsgi import Application, state
-    key = (c["nb"], c["na"], tuple(c["us"]), tuple(c["eh"]), c["digest"], c["route"] == "default")
+    key = (c["nb"], c["na"], tuple(c["us"]), tuple(c["eh"]), c["digest"], c["route"] == "default",
+           tuple(c["ehm"]), tuple(c["usm"]))
     if key in _apps:
         return _apps[key]
     app = Application("verif_wsgi_%d_%d" % (os.getpid(), len(_apps)))
@@ -253,17 +287,20 @@ def get_app(c):
             req.environ["verif.trace"].append("s%d" % code)
             return act(req.environ["verif.prog"].get("s%d" % code, "ret~N"))
         return status
-    for code in c["us"]:
-        app.set_http_state(code, mk_status(code), state.METHOD_ALL)
+    for code, mask in zip(c["us"], c["usm"]):
+        app.set_http_state(code, mk_status(code), mask)
+    ehm = list(c["ehm"])
 
     def mk_exch(i):
         def exch(req, err):
-            req.environ["verif.trace"].append("x%d" % i)
+            # label = position among the handlers registered for this request's method
+            bit = req.method_number
+            req.environ["verif.trace"].append("x%d" % sum(1 for k in range(i) if ehm[k] & bit))
             return act(req.environ["verif.prog"].get("x%d" % i, "ret~N"))
         return exch
     for i, cls in enumerate(c["eh"]):
         # the same class registered twice keeps its first position (dict semantics)
-        app.set_error_handler(EXC[cls], mk_exch(i), state.METHOD_ALL)
+        app.set_error_handler(EXC[cls], mk_exch(i), ehm[i])
     _apps[key] = app
     return app
 
@@ -285,10 +322,12 @@ def canon_body(body):
     return None
 
 
-def run_case(case, method="GET"):
+def run_case(case, method=None):
     """-> (trace list, outcome) where outcome is ('answered', status line, headers, body) |
     ('silent',) | ('escaped', exception) ; plus the `seen` list recorded by before hooks"""
     c = parse_case(case)
+    if method is None:
+        method = c["meth"]
     app = get_app(c)
     app.debug = c["route"] == "dbg"
     app.document_index = c["route"] == "dir"
@@ -422,6 +461,8 @@ def pool():
         f_resp(lambda: Response(b"created", headers=[("Location", "/x")], status_code=201)),
         f_resp(cookie_resp),
         f_resp(lambda: Response(b"own", headers={"Content-Type": "x/y", "Content-Length": "3"})),
+        f_resp(lambda: Response(b"lower", headers={"content-type": "x/z", "CONTENT-LENGTH": "5"})),
+        f_resp(lambda: GeneratorResponse(iter([b"g"]), headers=[("CONTENT-TYPE", "a/b")]), [b"g"]),
         f_resp(lambda: TextResponse("plain ž", status_code=404)),
         f_resp(lambda: JSONResponse({"k": "v"}, status_code=503)),
         f_resp(lambda: JSONResponse([])),
@@ -484,10 +525,17 @@ def rand_beh(rng, fail=0.5, after=False):
     return beh_ret(rand_value(rng))
 
 
-def mk_case(prop, route, ctor, nb, na, us, eh, digest, prog):
-    return "%s route=%s ctor=%s nb=%d na=%d us=%s eh=%s digest=%d prog=%s" % (
+def mk_case(prop, route, ctor, nb, na, us, eh, digest, prog, meth=None, ehm=None, usm=None):
+    line = "%s route=%s ctor=%s nb=%d na=%d us=%s eh=%s digest=%d prog=%s" % (
         prop, route, ctor, nb, na, ",".join(map(str, us)) or "none", ",".join(map(str, eh)) or "none",
         1 if digest else 0, ";".join("%s:%s" % kv for kv in prog.items()) or "none")
+    if meth is not None:
+        line += " meth=%s" % meth
+    if ehm is not None and eh:
+        line += " ehm=%s" % ",".join(map(str, ehm))
+    if usm is not None and us:
+        line += " usm=%s" % ",".join(map(str, usm))
+    return line
 
 
 ROUTES = ["hit", "wrong", "file", "dir", "forb", "dbg", "default", "nf"]
@@ -513,4 +561,11 @@ def rand_case(prop, rng, fail=0.4):
         prog["s%d" % code] = rand_beh(rng, 0.3)
     for i in range(len(eh)):
         prog["x%d" % i] = rand_beh(rng, 0.3)
+    if rng.random() < 0.35:
+        meth = rng.choice(list(METHOD_BITS) + ["BREW"])
+        masks = [1, 2, 4, 3, 6, 7, 16, 511, 511]
+        ehm = [rng.choice(masks) for _ in eh]
+        usm = [rng.choice(masks) for _ in us]
+        if route in ("hit", "default", "nf") and ctor != "ab~400~0~0":
+            return mk_case(prop, route, ctor, nb, na, us, eh, digest, prog, meth, ehm, usm)
     return mk_case(prop, route, ctor, nb, na, us, eh, digest, prog)
